@@ -158,7 +158,9 @@ Section Compile.
             end
           | inr x :: r =>
             match carg true x, go r with
-            | Some (xt, Some xa), Some (t, a) => Some (B """ " ++ xt ++ B " """ ++ t, xa :: a)
+            | Some (xt, Some xa), Some (t, a) =>
+              (* an empty string literal inside the interpolation is deleted by the `""` clean-up: not modelled *)
+              if containsb (B """""") xt then None else Some (B """ " ++ xt ++ B " """ ++ t, xa :: a)
             | _, _ => None
             end
           end in
